@@ -2006,6 +2006,19 @@ def gen_uncond_prog(rng):
         if rng.random() < 0.5:
             prod = [(OP['YD'], 2, 0, 0)] * rng.randint(1, 3) + prod     # give the waiters time to go to sleep first
         return {'init': [], 'bodies': _spawn_join(rng, cons + [prod])}
+    if rng.random() < 0.35:
+        # several producers and consumers share one mailbox: at most one of them waits at a time (the others retry), so
+        # consecutive rendezvous on the same variable have different waiters and signallers
+        np_, nc = rng.randint(1, 3), rng.randint(1, 3)
+        items = rng.randint(max(np_, nc), 8)
+
+        def split(total, k_):
+            cuts = sorted(rng.randint(0, total) for _ in range(k_ - 1))
+            return [b_ - a_ for a_, b_ in zip([0] + cuts, cuts + [total])]
+        bodies = [[(OP['UCSIG'], 0, 10 + i, 0)] * c for i, c in enumerate(split(items, np_))] + [[(OP['UCWAIT'], 0, 0, 0)] * c for c in split(items, nc)]
+        bodies = [b for b in bodies if b]
+        rng.shuffle(bodies)
+        return {'init': [], 'bodies': _spawn_join(rng, bodies)}
     k = rng.choice((1, 2, 3, 4, 6, 12, 20))
     prod = [(OP['UCSIG'], 0, 10 + i, 0) for i in range(k)]
     cons = [(OP['UCWAIT'], 0, 0, 0) for _ in range(k)]
